@@ -14,6 +14,7 @@ mod suite_axes;
 mod suite_build;
 mod suite_entity;
 mod suite_ffixed;
+mod suite_fanyorder;
 mod suite_fmap;
 mod suite_fclone;
 mod suite_forest;
@@ -36,12 +37,15 @@ mod html_gen;
 mod html_oracle;
 mod html_tok;
 mod suite_html;
+mod suite_lex;
 mod tree;
 
 use common::Sink;
 
 fn main() {
-    std::panic::set_hook(Box::new(|_| {}));
+    if std::env::var("XOTHARNESS_SHOW_PANICS").is_err() {
+        std::panic::set_hook(Box::new(|_| {}));
+    }
     let args: Vec<String> = std::env::args().collect();
     if args.len() < 5 {
         eprintln!("usage: xotharness <suite> <seed> <count> <tier>");
@@ -71,6 +75,7 @@ fn main() {
         "fmap" => suite_fmap::run(seed, count, tier, &mut sink),
         "build" => suite_build::run(seed, count, tier, &mut sink),
         "fclone" => suite_fclone::run(seed, count, tier, &mut sink),
+        "lex" => suite_lex::run(seed, count, tier, &mut sink),
         _ => {
             eprintln!("unknown suite {}", suite);
             std::process::exit(2);
